@@ -6,6 +6,8 @@ from ..lib import (params, returns_of, is_none_const, dominating_literals)
 from . import cachefam as F
 from . import c10
 
+from . import extra as X
+
 EXPLANATION = ("Necessary conditions of the composition law, decided on every path of the named functions: recursion on "
                "(predecessor, last step) with the right operands; input value / extra parameters forwarded to the right places; "
                "order-preserving argument expansion and the call shape command(input, *parameters, context=self, **extras); variables "
@@ -358,3 +360,4 @@ def run(chk):
     rule_parser_table(chk, "C01.7")
     rule_namespace_resolution(chk, "C01.8")
     rule_default_filling(chk, "C01.9")
+    X.rule_sequence_remainder(chk, "C01.10")
